@@ -38,7 +38,7 @@ areas = sys.argv[1].split(",") if len(sys.argv) > 1 and sys.argv[1] != "all" els
 with cf.ThreadPoolExecutor(4) as ex:
     for rs in ex.map(one, areas):
         for r in rs:
-            if len(r) == 3 or r[2] != "silent":
+            if len(r) == 3 or r[2] != "silent" or r[3] != "ok":
                 print(json.dumps(r))
         print(json.dumps(["summary", len([r for r in rs if len(r) > 3]), "runs", len([r for r in rs if len(r) > 3 and r[2] == "ALARM"]), "alarms"]))
         sys.stdout.flush()
